@@ -33,6 +33,8 @@ from .. import ref, gen, bridge, core
 from ..mon.hooks import Hooks
 
 PROP = "C06"
+LEVEL_TEXT = 'Fault/schedule enumeration: (a) library level - every arrival order (<= 3 parts) or sampled orders of partitions incl. empty parts x 4 merge operators x explicit/implicit rooting, alignment invariant after every hooked merge, sources unchanged, summary equal to the serial one; (b) real multi-process SumTrees runs under a fixed dozen (quick) of per-worker delay vectors at the two existing suspension points plus an injected spurious queue.Empty, offline check of the recorded arrival log (every file exactly once, no loss, every worker reported) and equality of the parallel and serial summaries. Evidence lists the distinct (files-per-worker, arrival order) signatures actually observed.'
+LEVEL_NOTE = 'Trusted: the serial summary as baseline (its exactness is C05); delays only before queue get / result put; OS scheduler decides the rest - the arrival log, not wall clock, decides the verdict.'
 LEVEL = "fault_enumeration"
 TECHNIQUE = ("runtime monitoring with schedule/fault injection: hooked TreeArray merges under enumerated partitions and arrival orders; "
              "real multi-process SumTrees runs under injected delays/spurious queue.Empty, offline check of the recorded arrival log against the serial run")
